@@ -226,6 +226,49 @@ void eval_factorization(Ctx &x, int opi, const OpSpec &op, long info, bool check
     }
 }
 
+// C12 on the computational route: ?langs + ?gscon called directly on the factors p?gstrf returned, with every spelling of the norm
+// argument the routine documents ('1', 'O', 'o' = one norm; 'I', 'i' = infinity norm).  Same bracket and admitted class as in the driver.
+void eval_gscon(Ctx &x, int opi, const OpSpec &op) {
+    Case &c = x.c; Outcome &o = x.out; int n = c.M.n;
+    if (n == 0 || op.x.u < 0.1) return;
+    std::vector<cld> vals = x.drv->get_A_values();
+    Dense Md = csc_to_dense(c.M, vals);
+    RefInfo ri = ref_analyse(Md, true);
+    if (ri.singular) return;
+    LUDump d; x.drv->dump_LU(d);
+    Dense L, U;
+    if (!d.ok || !expand_LU(d, L, U) || !finite_factors(L, U, c.prec)) return;
+    ld maxA = 0, maxW = 0, ee = eps_eff(c.prec);
+    for (auto &v : Md.a) maxA = std::max(maxA, absl_(v));
+    for (int i = 0; i < n; ++i) for (int j = 0; j < n; ++j) { ld w = 0; int km = std::min(i, j); for (int k = 0; k <= km; ++k) w += absl_(L.at(i, k)) * absl_(U.at(k, j)); maxW = std::max(maxW, w); }
+    ld growth = maxA > 0 ? maxW / maxA : 1;
+    static const char norms[] = {'1', 'O', 'o', 'I', 'i'};
+    sim::Rng rn(sim::derive(op.sched.seed, 0x9c0));
+    char nm = norms[rn.below(5)];
+    bool one = nm == '1' || nm == 'O' || nm == 'o';
+    ld cond = one ? ri.cond1 : ri.condinf, normA = one ? ri.norm1 : ri.norminf;
+    ld anorm = 0, rcond = 0;
+    bool arm = c.profile == "leak";   // the estimator's own work arrays belong to the accounted sequence of the leak histories
+    if (arm) sim::arm_alloc(true);
+    long info = x.drv->call_gscon(nm, anorm, rcond);
+    if (arm) sim::arm_alloc(false);
+    o.probes["gscon_direct_calls"]++;
+    if (info != 0) { add_viol(o, "C12", "gscon_rejects_documented_norm", fmt("?gscon(norm='%c') returned info=%ld", nm, info), opi); return; }
+    if (!(fabsl(anorm - normA) <= 4 * n * ee * normA)) { add_viol(o, "C12", "langs_norm_mismatch", fmt("?langs('%c') = %.9Le, reference %.9Le", nm, anorm, normA), opi); return; }
+    if (!(cond * growth * n * ee <= 1e-3L)) { o.excl["rcond_class_not_admitted"]++; return; }
+    const Dense &inv = ri.inv;
+    ld ninv = 0, nev = 0;
+    if (one) { for (int j = 0; j < n; ++j) { ld sc = 0; for (int i = 0; i < n; ++i) sc += absl_(inv.at(i, j)); ninv = std::max(ninv, sc); }
+               for (int i = 0; i < n; ++i) { cld sr = 0; for (int j = 0; j < n; ++j) sr += inv.at(i, j); nev += absl_(sr) / n; } }
+    else { for (int i = 0; i < n; ++i) { ld sr = 0; for (int j = 0; j < n; ++j) sr += absl_(inv.at(i, j)); ninv = std::max(ninv, sr); }
+           for (int j = 0; j < n; ++j) { cld sc = 0; for (int i = 0; i < n; ++i) sc += inv.at(i, j); nev += absl_(sc) / n; } }
+    if (!(normA > 0 && ninv > 0)) return;
+    ld lo = 1 / (normA * ninv), hi = nev > 0 ? 1 / (normA * nev) : INFINITY, tau = 1e-2L;
+    o.probes["gscon_direct_rcond_checked"]++;
+    if (!(rcond >= lo * (1 - tau))) add_viol(o, "C12", "rcond_below_true_reciprocal_condition", fmt("?gscon('%c'): rcond=%.6Le < 1/(|A||inv A|)=%.6Le (cond %.3Le growth %.3Le n %d)", nm, rcond, lo, cond, growth, n), opi);
+    if (!(rcond <= hi * (1 + tau))) add_viol(o, "C12", "rcond_above_estimator_upper_bound", fmt("?gscon('%c'): rcond=%.6Le > 1/(|A||inv(A)e/n|)=%.6Le", nm, rcond, hi), opi);
+}
+
 // C06: singular inputs.  k* = first column (A*Pc order, 0-based) at which the library itself saw an all-zero candidate set.
 void eval_singular(Ctx &x, int opi, const OpSpec &op, long info, const XOut &xo, uint64_t b_hash0, uint64_t x_hash0, const std::vector<cld> &Bin) {
     Case &c = x.c; Outcome &o = x.out; int n = c.M.n;
@@ -718,11 +761,25 @@ Outcome run_case(Case &c, const RunnerOpts &ro) {
         drv.get_perm_c_lib(c.colperm);
         sim::arm_alloc(false); sim::RunStats s0; sim::end_run(s0);
         out.probes["ordering_calls_leak_checked"]++;
+        {   // a format helper users call around the drivers: everything it allocates besides the three returned arrays must be gone
+            sim::begin_run(c0); sim::arm_alloc(true);
+            bool empty = (c.seed + rep) % 3 == 0;
+            bool ok = drv.call_comprow_to_compcol(empty);
+            sim::arm_alloc(false); sim::end_run(s0);
+            out.probes["helper_conversion_calls_leak_checked"]++; if (empty) out.probes["helper_conversion_calls_empty_matrix"]++;
+            if (!ok) add_viol(out, "C19", "comprow_to_compcol_wrong", "?CompRow_to_CompCol did not return the column-compressed form of the matrix", -1);
+        }
         if (c.M.nnz() == n) out.probes["ordering_calls_empty_adjacency"]++;
         if (drv.get_perm_c() != x.base_perm_c) add_viol(out, "C10", "ordering_not_repeatable", "get_perm_c gave a different permutation for the same pattern", -1);
     }
     for (int opi = 0; opi < (int)c.ops.size(); ++opi) {
         OpSpec &op = c.ops[opi];
+        if (ro.between && rep == 0 && opi == ro.between_after + 1) {
+            // unrelated library calls between a factorization and the solves that reuse its factors (C18)
+            const Case *sc = g_case; Outcome *so = g_out; std::string ss = g_sig_suffix;
+            ro.between();
+            g_case = sc; g_out = so; g_sig_suffix = ss;
+        }
         g_op = opi;
         // reusing factors is only legitimate after a factorization that succeeded
         if ((op.kind == OP_GSSVX && op.x.fact == 2) || op.kind == OP_GSTRS) {
@@ -848,6 +905,7 @@ Outcome run_case(Case &c, const RunnerOpts &ro) {
             if (op.x.refact && op.x.usepr && info == 0) eval_usepr(x, opi, op, pr_before);
             if (op.x.refact) out.probes["refactorizations"]++;
             if (op.x.lwork > 0) out.probes["user_workspace_calls"]++;
+            if (info == 0) eval_gscon(x, opi, op);
             continue;
         }
         if (c.profile == "alloc") {
@@ -898,6 +956,7 @@ Outcome run_case(Case &c, const RunnerOpts &ro) {
             else {
                 std::vector<cld> X = drv.get_B();
                 eval_factorization(x, opi, op, info, op.do_solve && info == 0, Bin, X, op.x.trans, true);
+                if (info == 0) eval_gscon(x, opi, op);
             }
         } else if (op.kind == OP_GSSVX) {
             if (op.x.fact == 0 && !a_same) add_viol(out, "C07", "A_modified", "expert driver with DOFACT changed A", opi);
